@@ -3,7 +3,7 @@ from __future__ import print_function
 import re
 import logging
 
-from .util import (Source, print_dump, get_marked_atribute, split_pkg, SOURCE_MARK,
+from .util import (Source, print_dump, get_marked_atribute, split_pkg, SOURCE_MARK, marked, unmark,
                    get_marked_name, get_marked_import, get_all_usages, join_pkg)
 from .evaluator import EvalCtx
 from .nast import extract_scope
@@ -57,7 +57,8 @@ def assist(project, source, position, filename=None, debug=False):
         if name:
             names = name.flow.names_at(position)
 
-    return prefix, sorted(names)
+    # the attribute assignment under the cursor carries the cursor mark
+    return prefix, sorted(set(unmark(n) if marked(n) else n for n in names))
 
 
 def _loc(location, filename):
